@@ -49,8 +49,9 @@ S3 = Scenario(
      "wire.disconnect_pins_from.set", "wire.pins=", "cable.wires=", "cable.create_wire",
      "cable.add_wire", "cable.remove_wire", "cable.remove_wires_from", "cable.remove_wires_from.set",
      "definition.remove_cable", "definition.add_cable", "definition.cables=", "definition.remove_cables_from",
-     "definition.remove_cables_from.set"],
-    limits={"positions": (None, 0), "bulk_max": 2, "proxy_pairs": _valid_proxies_plus_one, "names": (None, "a")},
+     "definition.remove_cables_from.set", "clone", "definition.add_child"],
+    limits={"positions": (None, 0), "bulk_max": 2, "proxy_pairs": _valid_proxies_plus_one, "names": (None, "a"),
+            "clone_kinds": "XCWP"},
     depth={"quick": 2, "thorough": 3},
     note="connect/disconnect with inner pins, stored outer pins and proxies; wire/cable reorder")
 
@@ -211,5 +212,12 @@ S13 = Scenario(
     depth={"quick": 2, "thorough": 3},
     note="bulk removals and reorder assignments given the live view of the collection they modify")
 
-STRUCTURAL += [S10, S11, S9, S12, S13]
+S14 = Scenario(
+    "S14-held-lists", seeds.seed_held_lists,
+    ["cable.wires=.held", "port.pins=.held", "cable.create_wire", "port.create_pin", "cable.remove_wire", "port.remove_pin"],
+    limits={"positions": (None,), "names": (None,), "counts": (None,)},
+    depth={"quick": 3, "thorough": 4},
+    note="a list object the caller keeps is assigned to the wires / pins of two bundles, which are then edited")
+
+STRUCTURAL += [S10, S11, S9, S12, S13, S14]
 INSTANCE_SCENARIOS += [S11]
